@@ -30,6 +30,21 @@ def t3_harnesses(tier):
             bound='layout %s, symbolic sub-grid g, direction c in 0..26, symbolic periodicity flags' % tag))
     return H
 
+COPYCTOR = '@_ZN19HydroDensitySubGridC2ERKS_'
+FOLD = '@_ZN14DensitySubGrid18update_intensitiesERKS_'
+def t4_harnesses(tier):
+    H = []
+    for l in ([(2, 1, 1)] if tier == 'quick' else [(2, 1, 1), (1, 2, 1), (1, 1, 2), (3, 1, 1)]):
+        tag = '%dx%dx%d' % l; nsub = l[0] * l[1] * l[2]
+        for code in range(3 ** nsub):
+            lv = [(code // 3 ** i) % 3 for i in range(nsub)]
+            if max(lv) == 0: continue
+            H.append(AHarness('T4_copies_%s_L%s' % (tag, ''.join(map(str, lv))), 'c07_graph.cpp', 'h_t4_copies', defs=ldefs(l) + ['LEVELS=%d' % code], redirect={CTOR: '@stub_subgrid_ctor', '@_Znwm': '@stub_new_any', COPYCTOR: '@stub_subgrid_copy_ctor', FOLD: '@stub_update_intensities', '@_ZSt17__throw_bad_allocv': '@stub_throw0', '@_ZSt28__throw_bad_array_new_lengthv': '@stub_throw0', '@_ZSt20__throw_length_errorPKc': '@stub_throw1'},
+                native_replay=False, timeout=900, unwind=30, witness=(code == 3 ** nsub - 1), noinline=True,
+                what='DensitySubGridCreator::create_copies: 2^level - 1 copies per sub-grid, each copy knows its original, every neighbour of a copy is the true geometric neighbour or a copy of it (walls stay walls), originals keep their wiring; update_original_counters folds every copy into its own original exactly once',
+                bound='layout %s, copy levels %s (every assignment in {0,1,2}^%d is a separate run), probe (sub-grid, copy, direction) and periodicity symbolic; vectors preallocated (no reallocation); sequential folding loop (no OpenMP)' % (tag, lv, nsub)))
+    return H
+
 def d2_known(work, ev, tier):
     """D2: pair task of a periodic axis with ONE sub-grid has the same lock twice (can never be locked)"""
     h = AHarness('G1_graph_D2_1x1x1', 'c07_graph.cpp', 'h_g1_graph', defs=ldefs((1, 1, 1)), redirect={CTOR: '@stub_subgrid_ctor', '@_Znwm': '@stub_new'}, cflags=['-fopenmp'], native_replay=False, timeout=900, unwind=28)
@@ -46,10 +61,12 @@ def run(tier, only=None):
     ev = Evidence('C07', tier); work = Work('C07')
     ev.stubs += ['HydroDensitySubGrid constructor -> light initialiser (cell counts, lock, task slots); the neighbour table is written by the REAL create_subgrid loop']
     ev.assumptions += ['std::vector<HydroDensitySubGrid*> _subgrids given by its begin pointer (libstdc++ layout)', 'task vector large enough (18 slots per sub-grid): capacity exhaustion outside']
-    ev.outside += ['3..16 threads and full task graphs under all interleavings (dynamic protocol: see C08 primitives; G2 worker loop not built)', 'layouts beyond those listed', 'liveness under unbounded spinning']
+    ev.outside += ['3..16 threads and full task graphs under all interleavings (dynamic protocol: the lock-pair primitive L1 is included here, the other primitives are C08; the worker loop is inlined in a 1000-line function and is not encodable as a unit)', 'layouts beyond those listed', 'liveness under unbounded spinning']
     violations = []; broken = []
     try:
-        hs = [h for h in harnesses(tier) if not only or h.name.startswith(only)]
+        import c08
+        # the dynamic half of 'never two tasks on one sub-grid at a time': a pair task takes BOTH sub-grid locks or none, and a failed attempt leaves every lock as it found it (shared with C08)
+        hs = [h for h in harnesses(tier) + [h for h in c08.harnesses(tier) if h.name == 'L1_lock_dependency'] if not only or h.name.startswith(only)]
         v, b = run_engine_a('C07', tier, hs, ev, work, workers=12); violations += v; broken += b
     except Broken as b:
         broken.append(str(b))
